@@ -7,6 +7,7 @@ import (
 type block struct {
 	buf    []byte
 	next   int // index in pool plus one
+	hold   int // number of bytes following buf that were returned by Lexeme and must be freed as well before reuse
 	active bool
 }
 
@@ -16,9 +17,14 @@ type bufferPool struct {
 	tail int // index in pool plus one
 
 	pos int // byte pos in tail
+
+	hold int // number of unshifted bytes returned by Lexeme, set before swap
 }
 
 func (z *bufferPool) swap(oldBuf []byte, size int) []byte {
+	hold := z.hold
+	z.hold = 0
+
 	// find new buffer that can be reused
 	swap := -1
 	for i := 0; i < len(z.pool); i++ {
@@ -28,24 +34,24 @@ func (z *bufferPool) swap(oldBuf []byte, size int) []byte {
 		}
 	}
 	if swap == -1 { // no free buffer found for reuse
-		if z.tail == 0 && z.pos >= len(oldBuf) && size <= cap(oldBuf) { // but we can reuse the current buffer!
+		if z.tail == 0 && hold == 0 && z.pos >= len(oldBuf) && size <= cap(oldBuf) { // but we can reuse the current buffer!
 			z.pos -= len(oldBuf)
 			return oldBuf[:0]
 		}
 		// allocate new
-		z.pool = append(z.pool, block{make([]byte, 0, size), 0, true})
+		z.pool = append(z.pool, block{make([]byte, 0, size), 0, 0, true})
 		swap = len(z.pool) - 1
 	}
 
 	newBuf := z.pool[swap].buf
-	if len(oldBuf) == 0 {
+	if len(oldBuf) == 0 && hold == 0 {
 		// the old buffer holds no shifted bytes that must be kept alive, leave it free for reuse
-		z.pool[swap] = block{oldBuf, 0, false}
+		z.pool[swap] = block{oldBuf, 0, 0, false}
 		return newBuf[:0]
 	}
 
 	// put current buffer into pool
-	z.pool[swap] = block{oldBuf, 0, true}
+	z.pool[swap] = block{oldBuf, 0, hold, true}
 	if z.head != 0 {
 		z.pool[z.head-1].next = swap + 1
 	}
@@ -60,7 +66,7 @@ func (z *bufferPool) swap(oldBuf []byte, size int) []byte {
 func (z *bufferPool) free(n int) {
 	z.pos += n
 	// move the tail over to next buffers
-	for z.tail != 0 && z.pos >= len(z.pool[z.tail-1].buf) {
+	for z.tail != 0 && z.pos >= len(z.pool[z.tail-1].buf)+z.pool[z.tail-1].hold {
 		z.pos -= len(z.pool[z.tail-1].buf)
 		newTail := z.pool[z.tail-1].next
 		z.pool[z.tail-1].active = false // after this, any thread may pick up the inactive buffer, so it can't be used anymore
@@ -83,6 +89,7 @@ type StreamLexer struct {
 	start     int // index in buf
 	pos       int // index in buf
 	prevStart int
+	lexEnd    int // index in buf up to which bytes were returned by Lexeme
 
 	free int
 }
@@ -127,6 +134,10 @@ func (z *StreamLexer) read(pos int) byte {
 		c = 2*c + p
 	}
 	d := len(z.buf) - z.start
+	if z.start < z.lexEnd {
+		z.pool.hold = z.lexEnd - z.start // keep the unshifted bytes returned by Lexeme alive
+	}
+	z.lexEnd = 0
 	buf := z.pool.swap(z.buf[:z.start], c)
 	copy(buf[:d], z.buf[z.start:]) // copy the left-overs (unfinished token) from the old buffer
 
@@ -202,6 +213,9 @@ func (z *StreamLexer) Rewind(pos int) {
 
 // Lexeme returns the bytes of the current selection.
 func (z *StreamLexer) Lexeme() []byte {
+	if z.lexEnd < z.pos {
+		z.lexEnd = z.pos
+	}
 	return z.buf[z.start:z.pos]
 }
 
